@@ -45,9 +45,9 @@ pub fn run(ctx: &Ctx) -> Report {
 		panic!("resolution model self-check failed: {e}");
 	}
 	let mut total = Report::new();
-	total.rule = "all pairs (base, reference): bases = s x {no authority, empty authority, h} x PATH(n) over {'' . .. a b:c} x {no query, q}; references = {no scheme, t} x {no authority, '', g} x PATH(m) over {'' . .. g (é)} x {no query, '', y} x {no fragment, s} (every RFC 5.2.2 branch); each through resolved / resolve / into_resolved and compared with a transcription of RFC 3986 5.2.2-5.2.4 + Errata 4547 + 5.3 (itself checked against the 42 examples of RFC 5.4); non-trivial = distinct pair".into();
+	total.rule = "all pairs (base, reference): bases = s x {no authority, empty authority, h} x PATH(n) over {'' . .. a b:c} x {no query, q}; references = {no scheme, t} x {no authority, '', g} x PATH(m) over {'' . .. g (é)} x {no query, '', y} x {no fragment, s} (every RFC 5.2.2 branch), plus long paths and a sub-domain with '/' and '?' inside queries and fragments on both sides; each through resolved / resolve / into_resolved and compared with a transcription of RFC 3986 5.2.2-5.2.4 + Errata 4547 + 5.3 (itself checked against the 42 examples of RFC 5.4); non-trivial = distinct pair".into();
 	let (bn, rn) = ctx.pick((2usize, 3usize), (3usize, 4usize));
-	for f in Family::BOTH {
+	for f in Family::active() {
 		let fr = FamRefs::new(refs, f);
 		let mut bs = bases(f, &fr, bn);
 		let mut rs = refs_domain(f, &fr, rn);
@@ -70,6 +70,25 @@ pub fn run(ctx: &Ctx) -> Report {
 			u.extend_from_slice(&lp);
 			rs.push(u);
 		}
+		// delimiters of an EARLIER component inside a later one ('/' and '?' in queries and
+		// fragments, on either side): component boundaries must come from the RFC split, not from
+		// a search for the first '?' or the last '/'
+		let o = |x: &[Option<&str>]| -> Vec<Option<Vec<u8>>> { x.iter().map(|s| s.map(domains::b)).collect() };
+		let pv = |x: &[&str]| -> Vec<Vec<u8>> { x.iter().map(|s| domains::b(s)).collect() };
+		bs.extend(
+			domains::references(&o(&[Some("s")]), &o(&[None, Some("h")]), &pv(&["", "/a/b", "a/b", "/"]), &o(&[None, Some("q/../x"), Some("q?x")]), &o(&[None, Some("bf?x/..")]))
+				.into_iter()
+				.map(|(t, _)| t),
+		);
+		rs.extend(
+			domains::references(&o(&[None]), &o(&[None]), &pv(&["", "g", "../g", "/g", "."]), &o(&[None, Some("y/../z?")]), &o(&[None, Some("s?x"), Some("s/../x")]))
+				.into_iter()
+				.map(|(t, _)| t),
+		);
+		bs.sort();
+		bs.dedup();
+		rs.sort();
+		rs.dedup();
 		bs.retain(|t| fr.valid(Kind::Ri, t));
 		rs.retain(|t| fr.valid(Kind::RiRef, t));
 		total.count(&format!("{}_bases", f.name()), bs.len() as u64);
